@@ -6,14 +6,15 @@ From Clemens Require Import Base.Res Base.Word Base.Bytes Search.Time Search.TT.
 From Clemens Require Import Pos.Types Att.Attacks Pos.Position Pos.Fen.
 From Clemens Require Import Eval.Eval Eval.SeeRef Search.Ordering Search.Negamax.
 From Clemens Require Import Uci.ParseGo Uci.Input Uci.Game.
-From Clemens Require Rules.Fide Rules.SpecFen.
+From Clemens Require Rules.Fide Rules.SpecFen Uci.Conc Search.GoInst C15Mirror.Mirror Rules.Abs.
 From ClemensGen Require Import GoConsts.
+Import ListNotations.
 
 (* the model instantiated with the constants of the current Go build *)
 Definition m_calc_time := calc_time maxTimeInMs.
 
-Definition go_keys : zkeys :=
-  {| zk_piece := zk_piece_tbl; zk_side := zk_side_key; zk_castling := zk_castling_tbl; zk_ep := zk_ep_tbl |}.
+(* the instantiated constant records are defined ONCE, in Search/GoInst.v, and are the ones the property files mention *)
+Definition go_keys : zkeys := Search.GoInst.go_keys.
 Definition m_new_position := new_position go_keys.
 Definition m_new_from_fen := new_from_fen go_keys unicode_digit_tbl.
 Definition m_new_from_fen_unrepaired := new_from_fen_unrepaired go_keys unicode_digit_tbl.
@@ -26,14 +27,7 @@ Definition m_unmake_null_move := unmake_null_move go_keys.
 Definition m_move_from_string := move_from_string unicode_digit_tbl.
 Definition m_make_move_from_string := make_move_from_string go_keys unicode_digit_tbl.
 
-Definition go_econsts : econsts :=
-  {| ec_piece_value := ev_piece_value; ec_mid_pst := ev_mid_pst; ec_end_pst := ev_end_pst;
-     ec_isolani := ev_isolani; ec_passed_scalar := ev_passed_scalar; ec_supported_scalar := ev_supported_scalar;
-     ec_rook_pair := ev_rook_pair; ec_knight_pair := ev_knight_pair; ec_bishop_pair := ev_bishop_pair;
-     ec_knight_pawn_adj := ev_knight_pawn_adj; ec_rook_pawn_adj := ev_rook_pawn_adj; ec_king_att := ev_king_att;
-     ec_phase_knight := ev_phase_knight; ec_phase_bishop := ev_phase_bishop; ec_phase_rook := ev_phase_rook;
-     ec_phase_queen := ev_phase_queen; ec_max_phase := ev_max_phase; ec_endgame_border := ev_endgame_border;
-     ec_contempt := ev_contempt; ec_inf := ev_inf; ec_max_plies := ev_max_plies; ec_cache_size := ev_cache_size |}.
+Definition go_econsts : econsts := Search.GoInst.go_econsts.
 Definition m_eval_raw := eval_raw go_econsts.
 Definition m_eval_parts := eval_parts go_econsts.
 Definition m_is_draw := is_draw.
@@ -44,14 +38,8 @@ Definition m_see_ref := see_ref go_econsts.
 Definition m_contempt := contempt go_econsts.
 Definition m_is_endgame := is_endgame go_econsts.
 
-Definition go_oconsts : oconsts :=
-  {| oc_pv := mo_pv_score; oc_tt := mo_tt_score; oc_killer := mo_killer_score; oc_promo := mo_promotion_score;
-     oc_counter_bonus := mo_counter_bonus; oc_mvv_lva := mo_mvv_lva |}.
-Definition go_sconsts : sconsts :=
-  {| sc_widen := se_widen_window; sc_max_depth := se_max_depth; sc_q_max_depth := se_quiescence_max_depth;
-     sc_fut_depth := se_futility_depth; sc_fut_margin := se_futility_margin;
-     sc_static_null_margin := se_static_null_margin; sc_tt_buckets := tt_numberOfBuckets;
-     sc_tt_bucket_size := N.to_nat tt_bucketSize; sc_hist_size := se_history_size |}.
+Definition go_oconsts : oconsts := Search.GoInst.go_oconsts.
+Definition go_sconsts : sconsts := Search.GoInst.go_sconsts.
 Definition m_score_moves := score_moves go_oconsts.
 Definition m_search := search go_keys go_econsts go_oconsts go_sconsts.
 Definition m_search_root := search_root go_keys go_econsts go_oconsts go_sconsts.
@@ -73,7 +61,55 @@ Definition m_tt_exec : list tt_op -> tt_state * list (Z * bool * N) :=
   tt_exec tt_numberOfBuckets m_tt_bucket_size eval_INF (tt_init m_tt_bucket_size).
 Definition m_hash_full : N -> N := hash_full tt_numberOfBuckets m_tt_bucket_size.
 
+(* C15: the mirror image of a position; C01/C02: the abstraction to the FIDE board state *)
+Definition m_mirror := C15Mirror.Mirror.mirror.
+Definition m_abs := Rules.Abs.abs.
+Definition m_decode := Rules.Abs.decode.
+
+(* C06: the transition system of the command loop, repaired variant; the interface to the OCaml
+   driver goes through nat/bool/list only so that it does not depend on extracted constructor names *)
+Definition c06_cmd (n : nat) : Uci.Conc.cmd :=
+  match n with 0%nat => Uci.Conc.CPos | 1%nat => Uci.Conc.CGo false | 2%nat => Uci.Conc.CGo true
+             | 3%nat => Uci.Conc.CStop | _ => Uci.Conc.CReady end.
+(* labels: 0 = reader, 1 + 2k = search goroutine k, 2 + 2i = asynchronous StartSearch activation i *)
+Definition c06_label (n : nat) : Uci.Conc.label :=
+  match n with 0%nat => Uci.Conc.LR | S m => if Nat.even m then Uci.Conc.LS (Nat.div2 m) else Uci.Conc.LG (Nat.div2 m) end.
+Definition c06_label_code (l : Uci.Conc.label) : nat :=
+  match l with Uci.Conc.LR => 0%nat | Uci.Conc.LS k => S (2 * k) | Uci.Conc.LG i => S (S (2 * i)) end.
+Definition c06_event_code (e : Uci.Conc.event) : nat :=
+  match e with Uci.Conc.EReady => 0%nat | Uci.Conc.EBest _ => 1%nat | Uci.Conc.ERefusePos => 2%nat | Uci.Conc.ERefuseGo => 3%nat end.
+(* events oldest first, state flag (0 IDLE 1 POSITION_SET 2 RUNNING), unconsumed lines, live search goroutines, lock *)
+Definition c06_obs (s : Uci.Conc.cstate) : list nat * nat * nat * nat * bool :=
+  (map c06_event_code (rev (Uci.Conc.c_out s)),
+   match Uci.Conc.c_gst s with Uci.Conc.IDLE => 0%nat | Uci.Conc.POSSET => 1%nat | Uci.Conc.RUNNING => 2%nat end,
+   length (Uci.Conc.c_lines s),
+   length (filter (fun t => match Uci.Conc.s_pc t with Uci.Conc.SDone => false | _ => true end) (Uci.Conc.c_searches s)),
+   Uci.Conc.c_lock s).
+Definition c06_run (d : list nat) (sched : list nat) : list nat * nat * nat * nat * bool :=
+  c06_obs (Uci.Conc.run Uci.Conc.repaired (Uci.Conc.init (map c06_cmd d)) (map c06_label sched)).
+(* every maximal execution (schedule as label codes) *)
+Definition c06_executions (fuel : nat) (d : list nat) : list (list nat) :=
+  map (fun x => map c06_label_code (fst x)) (Uci.Conc.executions Uci.Conc.repaired fuel (map c06_cmd d)).
+(* one random maximal execution: [pick k n] chooses an index below n for step k *)
+Fixpoint c06_walk (fuel : nat) (s : Uci.Conc.cstate) (pick : nat -> nat -> nat) (acc : list nat) : list nat :=
+  match fuel with
+  | O => rev acc
+  | S f =>
+    match Uci.Conc.enabled Uci.Conc.repaired s with
+    | [] => rev acc
+    | ls =>
+      let l := nth (pick (length acc) (length ls)) ls Uci.Conc.LR in
+      match Uci.Conc.step Uci.Conc.repaired s l with
+      | Some s' => c06_walk f s' pick (c06_label_code l :: acc)
+      | None => rev acc
+      end
+    end
+  end.
+Definition c06_random_execution (fuel : nat) (d : list nat) (pick : nat -> nat -> nat) : list nat :=
+  c06_walk fuel (Uci.Conc.init (map c06_cmd d)) pick [].
+
 Extraction "clemens_model.ml"
+  c06_run c06_executions c06_random_execution m_mirror m_abs m_decode
   m_calc_time m_tt_index m_tt_exec m_hash_full tt_get tt_save tt_reset
   m_new_position m_new_from_fen m_new_from_fen_unrepaired m_to_fen m_scratch_hash m_make_move m_legal_moves
   m_make_null_move m_unmake_null_move m_move_from_string m_make_move_from_string move_to_string
